@@ -550,8 +550,47 @@ func genCase(r *rand.Rand, s *Schema, b *Built, op string) *tcCase {
 		l := anyLeaf()
 		c.BodyPath = common.Pick(r, []string{"nope", l.names[0] + ".", l.names[0] + "..x", "." + l.names[0], l.names[0] + ".nope", "sub.sub.nope", "*.x", "."})
 	}
-	if op == "tc" {
+	// a google.protobuf.Any body whose @type the TARGET's files may or may not define (types linked into the
+	// bridge binary but unknown to the target must be rejected)
+	foreignAny := func() []byte {
+		return []byte(common.Pick(r, []string{
+			`{"@type":"type.googleapis.com/google.rpc.Status","code":3,"message":"x"}`,
+			`{"@type":"type.googleapis.com/google.protobuf.FileDescriptorProto","name":"a.proto"}`,
+			`{"@type":"type.googleapis.com/google.protobuf.DescriptorProto","name":"M"}`,
+			`{"@type":"type.googleapis.com/grpc.reflection.v1alpha.ErrorResponse","errorCode":5}`,
+			`{"@type":"type.googleapis.com/google.protobuf.Duration","value":"1.5s"}`,
+			`{"@type":"type.googleapis.com/google.protobuf.Int32Value","value":7}`,
+			`{"@type":"type.googleapis.com/` + pkgPlaceholder + `.M0"}`,
+			`{"@type":"type.googleapis.com/nope.Nope"}`,
+		}))
+	}
+	var anyLeaves []leaf
+	for _, l := range ls {
+		if l.f.Card == "s" && l.f.Ref == "google.protobuf.Any" {
+			anyLeaves = append(anyLeaves, l)
+		}
+	}
+	useForeign := len(anyLeaves) > 0 && r.Intn(6) == 0
+	if useForeign {
+		c.BodyPath = pathKey(r, anyLeaves[r.Intn(len(anyLeaves))], false)
+	}
+	if op == "st" {
+		n := 3 + r.Intn(2)
+		for i := 0; i < n; i++ {
+			fr := genBody(r, b, c.Root, c.BodyPath)
+			if useForeign && r.Intn(2) == 0 {
+				fr = foreignAny()
+			}
+			if bytes.ContainsAny(fr, "\xff\xfe") {
+				fr = []byte("{}")
+			}
+			c.Frames = append(c.Frames, fr)
+		}
+	} else if op == "tc" {
 		c.Body = genBody(r, b, c.Root, c.BodyPath)
+		if useForeign {
+			c.Body = foreignAny()
+		}
 	} else {
 		c.Calls = 1 + r.Intn(3)
 		n := r.Intn(4)
@@ -714,9 +753,9 @@ func (Area) Gen(r *rand.Rand, tier string, emit func(string)) {
 		}
 	}
 	// 3. whole-transcoder cases on random schemas
-	nSchemas, perSchema := 30, 90
+	nSchemas, perSchema, perSchemaWS := 30, 90, 8
 	if tier == "thorough" {
-		nSchemas, perSchema = 60, 1500
+		nSchemas, perSchema, perSchemaWS = 60, 1500, 60
 	}
 	for si := 0; si < nSchemas; si++ {
 		s := genSchema(r)
@@ -730,6 +769,20 @@ func (Area) Gen(r *rand.Rand, tier string, emit func(string)) {
 				op = "ts"
 			}
 			emit(genCase(r, s, b, op).Line())
+		}
+		// the same generator driven through the real WebSocket bridge + ProxyForwarder, several messages on one stream
+		for i := 0; i < perSchemaWS; i++ {
+			emit(genCase(r, s, b, "st").Line())
+		}
+		// which Any type URLs the production-built target resolves
+		for _, u := range []string{"type.googleapis.com/" + pkgPlaceholder + ".M0", pkgPlaceholder + ".M1", "a/b/" + pkgPlaceholder + ".M0", "type.googleapis.com/M0",
+			"type.googleapis.com/google.protobuf.Duration", "type.googleapis.com/google.protobuf.Any", "google.protobuf.Struct",
+			"type.googleapis.com/google.rpc.Status", "type.googleapis.com/google.protobuf.FileDescriptorProto", "type.googleapis.com/google.protobuf.DescriptorProto",
+			"type.googleapis.com/grpc.reflection.v1alpha.ErrorResponse", "type.googleapis.com/grpc.reflection.v1.ErrorResponse", "google.rpc.Status",
+			"type.googleapis.com/nope.Nope", "", "type.googleapis.com/", "type.googleapis.com/" + pkgPlaceholder + ".Nope", "type.googleapis.com/google.protobuf.Api"} {
+			if si%3 == 0 || r.Intn(4) == 0 {
+				emit("anyres " + s.String() + " " + common.HexS(u))
+			}
 		}
 	}
 }
